@@ -104,10 +104,22 @@ func (c *Catalog) tagsFromTagsDirective(d *directive.Directive) ([]*Tag, *jerr.J
 			return nil, d.KeywordError(fmt.Sprintf("%s %q", jerr.TagNotFound, tn))
 		}
 
-		tt = append(tt, t)
+		// A tag named twice is still one tag: the interaction is listed in it once.
+		if !containsTag(tt, t) {
+			tt = append(tt, t)
+		}
 	}
 
 	return tt, nil
+}
+
+func containsTag(tt []*Tag, t *Tag) bool {
+	for _, v := range tt {
+		if v == t {
+			return true
+		}
+	}
+	return false
 }
 
 func checkTagsDirective(d *directive.Directive) *jerr.JApiError {
